@@ -804,6 +804,18 @@ func keygen(run *vk.Run, kg, root string) {
 	p = vk.RunProc(20*time.Second, dir, nil, []byte{}, kg, "-y", "-o", yo, idf)
 	yb, _ := os.ReadFile(yo)
 	check("-y -o new", p.Exit, strings.TrimSpace(string(yb)) == x.Recipient().String(), "")
+	// -y -o naming an existing file (an unrelated file, the key file itself): never overwritten, whatever the mode
+	for _, target := range []string{"victim.key", "in.key", "link.key"} {
+		before, _ := os.ReadFile(filepath.Join(dir, target))
+		p = vk.RunProc(20*time.Second, dir, nil, []byte{}, kg, "-y", "-o", target, idf)
+		after, _ := os.ReadFile(filepath.Join(dir, target))
+		run.Eval(1)
+		if p.Exit == 0 || !bytes.Equal(before, after) {
+			run.Violation("C15:keygen-overwrites:-y -o "+target, fmt.Sprintf("age-keygen -y -o %s (an existing file): exit %d, file changed: %v", target, p.Exit, !bytes.Equal(before, after)), map[string]interface{}{"check": "C15.keygen", "case": "-y -o " + target})
+			os.WriteFile(filepath.Join(dir, target), before, 0o600)
+		}
+		run.Distinct("keygen:-y -o existing " + target)
+	}
 	p = vk.RunProc(20*time.Second, dir, nil, []byte{}, "prlimit", "--fsize=10", "--", kg, "-y", "-o", filepath.Join(dir, "y2.out"), idf)
 	check("-y -o size-limited", p.Exit, false, "")
 	p = vk.RunProc(20*time.Second, dir, nil, []byte("not a key\n"), kg, "-y")
